@@ -475,8 +475,9 @@ Proof. intros HM Hsub m s r t m' x Dm Or Hg H. apply (replace_re_all_spec_ext HM
 (* ------------------------------------------------------------------------------------------ *)
 (** * 7. Panics: None only if some char_derivative call returns None *)
 
-(* a character derivative of an owned term fails in some well-formed extension of m
-   (DerivProofs: this can only be a u32 overflow of a loop bound inside a constructor) *)
+(* a character derivative of an owned term fails in some well-formed extension of m.  Before the
+   repair of D11 this could happen (u32 overflow of a loop bound inside ReManager::concat); since
+   the repair it cannot (deriv_never_fails below), so the search / replace functions never panic. *)
 Definition deriv_fails (m : mgr) : Prop :=
   exists m1 p c, dwf m1 /\ ext m m1 /\ owned m1 p /\ good c /\ char_derivative m1 p c = None.
 
@@ -551,6 +552,35 @@ Theorem str_replace_re_all_total : merge_ok -> inclusion_sound -> forall m s r t
 Proof.
   intros HM Hsub m s r t Dm Or Hg H. unfold str_replace_re_all in H.
   apply (replace_re_all_go_none HM Hsub s r t Hg (S (length s)) m 0 [] Dm Or (Nat.le_0_l _) ltac:(lia) H).
+Qed.
+
+(* D11 repaired: no character derivative panics (DerivProofs.char_derivative_total), hence the search
+   and the two replace functions return on every good string, from every dwf manager *)
+Theorem deriv_never_fails m : ~ deriv_fails m.
+Proof.
+  intros (m1 & p & c & D & _ & O & Hc & H).
+  destruct (char_derivative_total m1 p c D O Hc) as (m' & d & E). congruence.
+Qed.
+Theorem naive_re_search_returns m r s k allow_empty :
+  dwf m -> owned m r -> goodw s -> exists m' res, naive_re_search m r s k allow_empty = Some (m', res).
+Proof.
+  intros Dm Or Hg. destruct (naive_re_search m r s k allow_empty) as [[m' res]|] eqn:E; [eauto|].
+  exfalso. apply (deriv_never_fails m).
+  apply (naive_re_search_total merge_ok_holds inclusion_sound_holds m r s k allow_empty Dm Or Hg E).
+Qed.
+Theorem str_replace_re_returns m s r t :
+  dwf m -> owned m r -> goodw s -> exists m' x, str_replace_re m s r t = Some (m', x).
+Proof.
+  intros Dm Or Hg. destruct (str_replace_re m s r t) as [[m' x]|] eqn:E; [eauto|].
+  exfalso. apply (deriv_never_fails m).
+  apply (str_replace_re_total merge_ok_holds inclusion_sound_holds m s r t Dm Or Hg E).
+Qed.
+Theorem str_replace_re_all_returns m s r t :
+  dwf m -> owned m r -> goodw s -> exists m' x, str_replace_re_all m s r t = Some (m', x).
+Proof.
+  intros Dm Or Hg. destruct (str_replace_re_all m s r t) as [[m' x]|] eqn:E; [eauto|].
+  exfalso. apply (deriv_never_fails m).
+  apply (str_replace_re_all_total merge_ok_holds inclusion_sound_holds m s r t Dm Or Hg E).
 Qed.
 
 (* ------------------------------------------------------------------------------------------ *)
@@ -651,6 +681,26 @@ Proof.
   destruct (run p new_mgr) as [[m1 r]|] eqn:R; [|discriminate].
   destruct (str_replace_re_all m1 s r t) as [[m2 x']|] eqn:E; [|discriminate]. cbn in H. injection H as ->.
   apply (replace_re_all_denotation HM Hsub p new_mgr m1 r s t m2 x new_mgr_dwf Hok R Hg E).
+Qed.
+
+(* the certified evaluators are total on accepted programs and good strings (run_total + the above) *)
+Theorem eval_replace_re_total p s t : prog_ok p = true -> goodwb s = true ->
+  exists x, eval_replace_re p s t = Some x /\ forall y, ReplaceRe (denote p) s t y <-> y = x.
+Proof.
+  intros Hok Hg. pose proof Hg as Hg'. apply goodwb_iff in Hg'. unfold eval_replace_re.
+  destruct (run_total p new_mgr (proj1 new_mgr_dwf) Hok) as (m1 & r & R). rewrite R.
+  destruct (run_dwf p new_mgr m1 r new_mgr_dwf Hok R) as (D1 & _ & Or).
+  destruct (str_replace_re_returns m1 s r t D1 Or Hg') as (m2 & x & E). rewrite E. exists x. split; [reflexivity|].
+  apply (replace_re_complete merge_ok_holds inclusion_sound_holds p new_mgr m1 r s t m2 x new_mgr_dwf Hok R Hg' E).
+Qed.
+Theorem eval_replace_re_all_total p s t : prog_ok p = true -> goodwb s = true ->
+  exists x, eval_replace_re_all p s t = Some x /\ forall y, ReplaceReAll (denote p) s t y <-> y = x.
+Proof.
+  intros Hok Hg. pose proof Hg as Hg'. apply goodwb_iff in Hg'. unfold eval_replace_re_all.
+  destruct (run_total p new_mgr (proj1 new_mgr_dwf) Hok) as (m1 & r & R). rewrite R.
+  destruct (run_dwf p new_mgr m1 r new_mgr_dwf Hok R) as (D1 & _ & Or).
+  destruct (str_replace_re_all_returns m1 s r t D1 Or Hg') as (m2 & x & E). rewrite E. exists x. split; [reflexivity|].
+  apply (replace_re_all_complete merge_ok_holds inclusion_sound_holds p new_mgr m1 r s t m2 x new_mgr_dwf Hok R Hg' E).
 Qed.
 
 Print Assumptions naive_re_search_spec.
